@@ -17,6 +17,11 @@ Definition elide (tb : text) : text :=
 (* state['value'] = str(obj.value)  or  reflect.safe_str(obj.value), whichever the source uses *)
 Definition render (e : exc) : res text := if value_rendering_is_safe then render_safe e else render_str e.
 
+(* what getStateToCopy needs of the exception's CLASS: reflect.qual(obj.type) and obj.parents (reflect.qual of every class of the
+   MRO) both return -- false for a class, or an ancestor, whose __module__ is not a string: qual raises TypeError, unguarded *)
+Definition nameable (x : exc) : bool :=
+  match e_type x, e_parents x with Ok _, Ok _ => true | _, _ => false end.
+
 (* the model of getStateToCopy IS the translated function *)
 Definition get_state (unsafe : bool) (e : exc) : res fstate := get_state_src unsafe e.
 
